@@ -107,6 +107,22 @@ pub fn gen(ctx: &mut Ctx) {
         }).unwrap_or("panic".into());
         ctx.line(&format!("st.byte {}", b), &obs);
     }
+    // ---- every value of every error family: value -> byte -> value (exactly one status value per byte)
+    for b in 0..=255u8 {
+        use passkey_types::ctap2::{Ctap2Error, ExtensionError, U2FError, UnknownSpecError, VendorError};
+        let mut fams: Vec<(&str, StatusCode)> = vec![];
+        if let Ok(e) = Ctap2Error::try_from(b) { fams.push(("ctap2", e.into())); }
+        if let Ok(e) = U2FError::try_from(b) { fams.push(("u2f", e.into())); }
+        if let Ok(e) = ExtensionError::try_from(b) { fams.push(("ext", e.into())); }
+        if let Ok(e) = VendorError::try_from(b) { fams.push(("vendor", e.into())); }
+        if let Ok(e) = UnknownSpecError::try_from(b) { fams.push(("other", e.into())); }
+        for (fam, v) in fams {
+            let dbg = format!("{:?}", v);
+            let byte: u8 = v.into();
+            let back = format!("{:?}", StatusCode::from(byte));
+            ctx.line(&format!("st.val {} {}", fam, b), &format!("{} {} {}", dbg, byte, back));
+        }
+    }
     // ---- options map defaults
     for mask in 0..27u32 {
         let mut m = vec![];
